@@ -14,7 +14,7 @@ def scenarios(ctx):
     out = B.tlc_scenarios(ctx, "tlc", 150 if quick else 1500, 28, ctx.seed)
     for i in range(40 if quick else 400):
         tick = rng.choice([100, 100, 500, 1000])
-        cfg = {"tick_ms": tick, "fallback": rng.randint(1, 40), "recovery": rng.randint(1, 40), "check": rng.choice([1, 1, 2, 5]),
+        cfg = {"tick_ms": tick, "fallback": rng.choice([0, 1, 1, 2, 3, 5, 10, 20, 40]), "recovery": rng.randint(1, 40), "check": rng.choice([0, 1, 1, 2, 5]),
                "ast": B.NETERR, "expr": B.render(B.NETERR), "fbkind": rng.choice(["default", "default", "response", "redirect", "redirect_preserve"])}
         out.append({"id": "rnd-%d" % i, "cfg": cfg, "steps": B.history(rng, 300 if quick else 900, tick, codes_ok=(200,), codes_bad=(502, 504))})
     # directed family: the request whose completion trips the breaker was in flight for L ticks; afterwards one arrival
